@@ -245,11 +245,12 @@ def run_qe(case):
 
 
 class _StubG:
-    def __init__(self, ginf):
+    def __init__(self, gn, ginf):
+        self._gn = np.float64(gn)
         self._ginf = np.float64(ginf)
 
     def norm(self, ord=2):
-        return self._ginf
+        return self._ginf if ord == np.inf else (self._gn if ord == 2 else np.float64("nan"))
 
 
 class _StubE:
@@ -258,7 +259,7 @@ class _StubE:
 
     def __init__(self, gn, ginf, val):
         self.gradient_norm = np.float64(gn)
-        self.gradient = _StubG(ginf)
+        self.gradient = _StubG(gn, ginf)
         self.value = float(val)
 
 
